@@ -283,7 +283,8 @@ def _wrap_genpoints(state, gen_cls):
         if _gp_room(state, "new"):
             _gp_fresh(state)
             fac = self.bt_factory
-            rec = {"etype": _gp_add(state, etype), "sub": bool(subtype), "sam": bool(sam_coercion),
+            rec = {"etype": _gp_add(state, etype), "ename": getattr(etype, "name", None), "sub": bool(subtype),
+                   "sam": bool(sam_coercion),
                    "any": _gp_add(state, fac.get_any_type()), "void": _gp_add(state, fac.get_void_type()),
                    "black": sorted(self._blacklisted_classes), "tvnames": list(self._get_type_variable_names()),
                    "depth": self.depth}
